@@ -25,7 +25,9 @@ class CompositedCacheMixin:
     #
 
     def _remove_cached(self, names):
-        self._merged_solvers = {k: v for k, v in self._merged_solvers.items() if not k & names}
+        # an entry is keyed by the names that were asked for, but the solver it holds was merged from every child
+        # connected to them: it is stale as soon as any of those children changes
+        self._merged_solvers = {k: v for k, v in self._merged_solvers.items() if not (k | v.variables) & names}
 
     def _solver_for_names(self, names):
         n = frozenset(names)
